@@ -130,6 +130,11 @@ let () =
                 apply ln desc (EJoinRet (nat_of a, nat_of u)) [u] [] []
               | None -> raise (Mismatch (Printf.sprintf "line=%d join of an unknown unit index %d" ln idx)))
            end else if op = Char.code 'x' then xjoin := (idx, int_of_string c) :: !xjoin
+           else if op = Char.code 'j' then begin
+             let v = int_of_string c in
+             if v / 10000 <> 0 || (v / 1000) mod 10 <> 1 || v mod 1000 <> 0 then
+               api_bad := Printf.sprintf "xstream_join(ES%d)-returned-rc=%d-state=%d-with-%d-unfinished-units" idx (v / 10000) ((v / 1000) mod 10) (v mod 1000) :: !api_bad
+           end
            else if op = Char.code 'm' then begin
              (* ABT_thread_migrate: the generator only issues it when another running stream exists *)
              if int_of_string c <> 0 then api_bad := Printf.sprintf "ABT_thread_migrate(unit%d)-returned-%s" idx c :: !api_bad
